@@ -77,6 +77,7 @@ func reuseCheck(c *core.Case, e *entry, op string, docs ...[]byte) {
 		c.Count("reused_target_differs_from_fresh", 1)
 		c.Count("reused_stale:"+e.name, 1)
 	}
+	exerciseDecoded(c, e, target, "reused decode target")
 }
 
 // firstGoodEncoding returns the first encoding of v that was written without
